@@ -23,6 +23,7 @@ type feas struct {
 	feasible map[[2]*ssa.BasicBlock]bool
 	reach    map[*ssa.BasicBlock]bool
 	sawLeaf  bool
+	nilConst bool // the nil constant evaluates to a value of its own (for "err == nil" under a forced error)
 }
 
 func (fe *feas) eval(v ssa.Value, depth int) (constant.Value, bool) {
@@ -37,6 +38,9 @@ func (fe *feas) eval(v ssa.Value, depth int) (constant.Value, bool) {
 	case *ssa.Const:
 		if x.Value != nil {
 			return x.Value, true
+		}
+		if fe.nilConst {
+			return feasNil, true
 		}
 	case *ssa.Convert:
 		return fe.eval(x.X, depth+1)
@@ -83,13 +87,26 @@ func (fe *feas) eval(v ssa.Value, depth int) (constant.Value, bool) {
 	return nil, false
 }
 
+// feasNil / feasNonNil stand for "the nil constant" and "some value that is not nil".
+var (
+	feasNil    = constant.MakeString("<nil>")
+	feasNonNil = constant.MakeString("<non-nil>")
+)
+
 func feasibleUnder(f *ssa.Function, leaf func(ssa.Value) (constant.Value, bool)) *feas {
-	fe := &feas{f: f, leaf: leaf, feasible: map[[2]*ssa.BasicBlock]bool{}, reach: map[*ssa.BasicBlock]bool{}}
 	if len(f.Blocks) == 0 {
-		return fe
+		return &feas{f: f, leaf: leaf, feasible: map[[2]*ssa.BasicBlock]bool{}, reach: map[*ssa.BasicBlock]bool{}}
 	}
-	fe.reach[f.Blocks[0]] = true
-	work := []*ssa.BasicBlock{f.Blocks[0]}
+	return feasibleFrom(f, f.Blocks[0], false, leaf)
+}
+
+// feasibleFrom explores from block start only (what can follow it); edges
+// back into start are not taken: executing it again yields fresh values, to
+// which the forcing does not apply.
+func feasibleFrom(f *ssa.Function, start *ssa.BasicBlock, nilConst bool, leaf func(ssa.Value) (constant.Value, bool)) *feas {
+	fe := &feas{f: f, leaf: leaf, nilConst: nilConst, feasible: map[[2]*ssa.BasicBlock]bool{}, reach: map[*ssa.BasicBlock]bool{}}
+	fe.reach[start] = true
+	work := []*ssa.BasicBlock{start}
 	for len(work) > 0 {
 		b := work[len(work)-1]
 		work = work[:len(work)-1]
@@ -105,6 +122,9 @@ func feasibleUnder(f *ssa.Function, leaf func(ssa.Value) (constant.Value, bool))
 		}
 		for _, sc := range succs {
 			e := [2]*ssa.BasicBlock{b, sc}
+			if sc == start && start != f.Blocks[0] {
+				continue
+			}
 			if !fe.feasible[e] {
 				// a newly feasible edge can only widen what later φ-nodes may be: revisit
 				fe.feasible[e] = true
